@@ -318,13 +318,26 @@ func oneCmd(t *rapid.T, f *gen.Func, shape string) bool {
 		}
 	}
 	var nilV reflect.Value
+	// an absent selector / elements argument comes as a plain nil or, as callers with typed
+	// variables pass it, as a nil pointer of the selectors / elements type
+	typedNil := rapid.Bool().Draw(t, "absentArgumentsAsTypedNil")
+	noSel, noElem := any(nil), any(nil)
+	if typedNil {
+		if f.SelectorsType != nil {
+			noSel = reflect.Zero(reflect.PointerTo(f.SelectorsType)).Interface()
+		}
+		if f.ElementsType != nil {
+			noElem = reflect.Zero(reflect.PointerTo(f.ElementsType)).Interface()
+		}
+		world.Label("absent-arguments/typed-nil")
+	}
 	switch shape {
 	case "read":
-		checkCmd(t, f, shape, fd.ReadCmdType(nil, nil), false, false, nilV, nilV, nilV, nilV, nil)
+		checkCmd(t, f, shape, fd.ReadCmdType(noSel, noElem), false, false, nilV, nilV, nilV, nilV, nil)
 	case "read+sel":
-		checkCmd(t, f, shape, fd.ReadCmdType(sel.Interface(), nil), true, false, sel, nilV, nilV, nilV, nil)
+		checkCmd(t, f, shape, fd.ReadCmdType(sel.Interface(), noElem), true, false, sel, nilV, nilV, nilV, nil)
 	case "read+elem":
-		checkCmd(t, f, shape, fd.ReadCmdType(nil, elem.Interface()), true, false, nilV, nilV, elem, nilV, nil)
+		checkCmd(t, f, shape, fd.ReadCmdType(noSel, elem.Interface()), true, false, nilV, nilV, elem, nilV, nil)
 	case "read+sel+elem":
 		checkCmd(t, f, shape, fd.ReadCmdType(sel.Interface(), elem.Interface()), true, false, sel, nilV, elem, nilV, nil)
 	case "reply":
@@ -332,21 +345,21 @@ func oneCmd(t *rapid.T, f *gen.Func, shape string) bool {
 	case "reply-partial":
 		checkCmd(t, f, shape, fd.ReplyCmdType(true), true, false, nilV, nilV, nilV, nilV, payload)
 	case "notify-full":
-		checkCmd(t, f, shape, fd.NotifyOrWriteCmdType(nil, nil, false, nil), false, false, nilV, nilV, nilV, nilV, payload)
+		checkCmd(t, f, shape, fd.NotifyOrWriteCmdType(noSel, noSel, false, noElem), false, false, nilV, nilV, nilV, nilV, payload)
 	case "notify-partial":
-		checkCmd(t, f, shape, fd.NotifyOrWriteCmdType(nil, nil, true, nil), true, false, nilV, nilV, nilV, nilV, payload)
+		checkCmd(t, f, shape, fd.NotifyOrWriteCmdType(noSel, noSel, true, noElem), true, false, nilV, nilV, nilV, nilV, payload)
 	case "notify-partial+sel":
-		checkCmd(t, f, shape, fd.NotifyOrWriteCmdType(nil, sel.Interface(), false, nil), true, false, sel, nilV, nilV, nilV, payload)
+		checkCmd(t, f, shape, fd.NotifyOrWriteCmdType(noSel, sel.Interface(), false, noElem), true, false, sel, nilV, nilV, nilV, payload)
 	case "notify-delete+sel":
-		checkCmd(t, f, shape, fd.NotifyOrWriteCmdType(sel.Interface(), nil, false, nil), false, true, nilV, sel, nilV, nilV, payload)
+		checkCmd(t, f, shape, fd.NotifyOrWriteCmdType(sel.Interface(), noSel, false, noElem), false, true, nilV, sel, nilV, nilV, payload)
 	case "notify-delete+elem":
-		checkCmd(t, f, shape, fd.NotifyOrWriteCmdType(nil, nil, false, elem.Interface()), false, true, nilV, nilV, nilV, elem, payload)
+		checkCmd(t, f, shape, fd.NotifyOrWriteCmdType(noSel, noSel, false, elem.Interface()), false, true, nilV, nilV, nilV, elem, payload)
 	case "notify-delete+sel+elem":
-		checkCmd(t, f, shape, fd.NotifyOrWriteCmdType(sel.Interface(), nil, false, elem.Interface()), false, true, nilV, sel, nilV, elem, payload)
+		checkCmd(t, f, shape, fd.NotifyOrWriteCmdType(sel.Interface(), noSel, false, elem.Interface()), false, true, nilV, sel, nilV, elem, payload)
 	case "notify-delete+sel&partial+sel":
-		checkCmd(t, f, shape, fd.NotifyOrWriteCmdType(sel.Interface(), sel2.Interface(), false, nil), true, true, sel2, sel, nilV, nilV, payload)
+		checkCmd(t, f, shape, fd.NotifyOrWriteCmdType(sel.Interface(), sel2.Interface(), false, noElem), true, true, sel2, sel, nilV, nilV, payload)
 	case "notify-delete+elem&partial+sel":
-		checkCmd(t, f, shape, fd.NotifyOrWriteCmdType(nil, sel2.Interface(), false, elem.Interface()), true, true, sel2, nilV, nilV, elem, payload)
+		checkCmd(t, f, shape, fd.NotifyOrWriteCmdType(noSel, sel2.Interface(), false, elem.Interface()), true, true, sel2, nilV, nilV, elem, payload)
 	case "notify-delete+sel+elem&partial+sel":
 		checkCmd(t, f, shape, fd.NotifyOrWriteCmdType(sel.Interface(), sel2.Interface(), false, elem.Interface()), true, true, sel2, sel, nilV, elem, payload)
 	}
